@@ -2042,3 +2042,13 @@ mod tests {
 		assert_eq!(tracker2.get_all_snapshots(), vec![50, 100]);
 	}
 }
+
+// Verification hooks (guarded; stripped unless built with cfg(kani) or --cfg surrealkv_verif).
+#[cfg(kani)]
+mod verif_kani {
+	include!(concat!(env!("SURREALKV_VERIF_DIR"), "/kani/snapshot.rs"));
+}
+#[cfg(all(test, surrealkv_verif))]
+mod verif_replay {
+	include!(concat!(env!("SURREALKV_VERIF_DIR"), "/replay/snapshot.rs"));
+}
